@@ -287,6 +287,7 @@ Proof.
   rewrite run_bind, tables_read by (try assumption; lia).
   (* groups *)
   destruct (sels_clamp (N.of_nat (length tables)) sels (w_extra_sel w) Hnsel Hsel ltac:(lia)) as [ex Hex].
+  change (sel_clamp ref_noexc_policy) with sel_clamp_value.
   rewrite Hex. rewrite run_bind.
   replace (N.of_nat (length used + 2) - 1)%N with (N.of_nat (length used) + 1)%N by lia.
   rewrite (read_groups_run tables (length used + 2) (N.of_nat (length used) + 1)%N).
